@@ -10,20 +10,29 @@ import (
 )
 
 type c11Case struct {
-	ID       string `json:"id"`
-	Seed     int64  `json:"seed"`
-	Inject   bool   `json:"inject"`
-	Version  int    `json:"version"`
-	Sessions int    `json:"sessions"`
-	Sizes    string `json:"sizes"`
-	Kinds    string `json:"kinds"`
-	C2S      int    `json:"c2s"`
-	S2C      int    `json:"s2c"`
-	Batch    string `json:"batch"`
-	Poll     string `json:"poll"`
+	ID        string `json:"id"`
+	Seed      int64  `json:"seed"`
+	Inject    bool   `json:"inject"`
+	Version   int    `json:"version"`
+	Sessions  int    `json:"sessions"`
+	Sizes     string `json:"sizes"`
+	Kinds     string `json:"kinds"`
+	C2S       int    `json:"c2s"`
+	S2C       int    `json:"s2c"`
+	Batch     string `json:"batch"`
+	Poll      string `json:"poll"`
+	Tail      int    `json:"tail,omitempty"`
+	CloseRace bool   `json:"close_race,omitempty"`
+	SlowMs    int    `json:"slow_ms,omitempty"`
 }
 
 func (c c11Case) class() string {
+	if c.CloseRace {
+		return fmt.Sprintf("close-behind-data|sizes=%s|kinds=%s|batch=%s|n=%s|backend reads 1 msg per %dms", c.Sizes, c.Kinds, c.Batch, c11Bucket(c.C2S), c.SlowMs)
+	}
+	if c.Tail > 0 {
+		return fmt.Sprintf("inject=%v|v%d|sessions=%d|sizes=%s|kinds=%s|batch=%s|poll=%s|final-burst=%s+backend-close", c.Inject, c.Version, c.Sessions, c.Sizes, c.Kinds, c.Batch, c.Poll, c11Bucket(c.Tail))
+	}
 	return fmt.Sprintf("inject=%v|v%d|sessions=%d|sizes=%s|kinds=%s|batch=%s|poll=%s", c.Inject, c.Version, c.Sessions, c.Sizes, c.Kinds, c.Batch, c.Poll)
 }
 
@@ -44,6 +53,9 @@ type c11Result struct {
 	PollShape     string            `json:"poll_shape"`
 	SizeClasses   map[string]int    `json:"size_classes"`
 	JSONClasses   map[string]int    `json:"json_classes"`
+	TailCarried   int               `json:"tail_carried"`
+	TailPolls     int               `json:"tail_polls"`
+	CloseRaceMsgs int               `json:"close_race_msgs"`
 	Injected      int               `json:"injected"`
 	KeysAdded     int               `json:"keys_added"`
 	Unchanged     int               `json:"unchanged"`
@@ -52,6 +64,20 @@ type c11Result struct {
 	Panic         string            `json:"panic"`
 	Ms            int64             `json:"ms"`
 	Detail        map[string]string `json:"detail"`
+}
+
+func c11Bucket(n int) string {
+	switch {
+	case n <= 1:
+		return fmt.Sprint(n)
+	case n <= 9:
+		return "2-9"
+	case n == 10 || n == 11:
+		return fmt.Sprint(n)
+	case n <= 30:
+		return "12-30"
+	}
+	return ">30"
 }
 
 func c11Cases(r *core.Run) []c11Case {
@@ -110,6 +136,25 @@ func c11Cases(r *core.Run) []c11Case {
 		if rng.Intn(20) == 0 {
 			c.S2C = 0
 		}
+		// every third history ends with a burst the backend sends while nobody polls, then closes
+		if i%3 == 1 {
+			c.Tail = []int{1, 2, 9, 10, 11, 12, 30, 1 + rng.Intn(30)}[rng.Intn(8)]
+		}
+		out = append(out, c)
+	}
+	// close right behind data posts, backend reading slowly
+	nRace := r.Pick(24, 600)
+	for i := 0; i < nRace; i++ {
+		c := c11Case{ID: fmt.Sprintf("c11-s%d-cr%d", r.Seed, i), Seed: rng.Int63(), CloseRace: true, Version: 1, Sessions: 1,
+			Kinds: kinds[rng.Intn(3)], Batch: batches[rng.Intn(4)], SlowMs: []int{5, 10, 20}[rng.Intn(3)]}
+		switch i % 3 {
+		case 0: // more than the 10-slot queue, small messages
+			c.Sizes, c.C2S = "small", 11+rng.Intn(25)
+		case 1: // 1 MiB messages: the writer is still busy with them when the close is posted
+			c.Sizes, c.C2S = "big", 1+rng.Intn(4)
+		default:
+			c.Sizes, c.C2S = "edges", 1+rng.Intn(20)
+		}
 		out = append(out, c)
 	}
 	return out
@@ -118,7 +163,7 @@ func c11Cases(r *core.Run) []c11Case {
 // C11 — shimmed websockets deliver every message once, in order, unchanged.
 func C11(r *core.Run) {
 	r.Level = "exploration"
-	r.SetRule("websockets.Proxy driven in-process (race-built worker, agent's GODEBUG defaults) against a real gorilla websocket backend; one case = one seeded message history over 1-2 shim sessions: text (valid UTF-8 incl. NUL, quotes, <>&, U+2028, 4-byte runes) and binary (all byte values, protocol v1) messages of sizes {0,1,125,126,127,65535,65536,65537,1 MiB,random}, client messages partitioned into data posts of 1-40 (some >10 = queue capacity, some spanning two sessions), backend bursts of 1-100 sent before / while / trickling during polls, one data post and one poll outstanding per session; with injection enabled JSON messages of 13 shapes around resource.headers; class = (injection, protocol version, sessions, size profile, kinds, post batching, poll timing)")
+	r.SetRule("websockets.Proxy driven in-process (race-built worker, agent's GODEBUG defaults) against a real gorilla websocket backend; one case = one seeded message history over 1-2 shim sessions: text (valid UTF-8 incl. NUL, quotes, <>&, U+2028, 4-byte runes) and binary (all byte values, protocol v1) messages of sizes {0,1,125,126,127,65535,65536,65537,1 MiB,random}, client messages partitioned into data posts of 1-40 (some >10 = queue capacity, some spanning two sessions), backend bursts of 1-100 sent before / while / trickling during polls, one data post and one poll outstanding per session; every third history ends with a final backend burst of 1-30 messages (incl. 10, 11, 12, 30) sent while no poll is outstanding followed by a graceful backend close, after which polls must deliver the burst and then report the session closed; plus close-behind-data histories: 1-35 messages (more than the queue, or 1 MiB each) posted to a backend that reads one message per 5-20 ms, close posted right behind the last data post, all messages must arrive in order followed by a normal closure; with injection enabled JSON messages of 13 shapes around resource.headers; class = (injection, protocol version, sessions, size profile, kinds, post batching, poll timing)")
 	r.Assume("binary messages are only generated under shim protocol version 1 (version 0 carries text only); JSON numbers in injected messages are float64-exact; injection is judged as safety only (an unchanged message is always acceptable)")
 	bin := r.MustBuild(r.BuildWorker())
 	godebug := shimGodebug(r)
@@ -170,6 +215,14 @@ func C11(r *core.Run) {
 		r.Max("max_messages_in_one_post", res.MaxPost)
 		r.Max("max_messages_in_one_poll_reply", res.MaxPollBatch)
 		r.Max("max_backend_burst", res.MaxBurst)
+		r.Add("messages_delivered_after_final_burst_and_backend_close", res.TailCarried)
+		r.Add("polls_after_backend_close", res.TailPolls)
+		r.Add("messages_delivered_ahead_of_close_to_slow_backend", res.CloseRaceMsgs)
+		if c.CloseRace {
+			r.Add("close_behind_data_histories", 1)
+		} else if c.Tail > 0 {
+			r.Add("histories_ending_with_burst_and_backend_close", 1)
+		}
 		r.Add("injection_messages_extended", res.Injected)
 		r.Add("injection_keys_added", res.KeysAdded)
 		r.Add("injection_messages_left_identical", res.Unchanged)
@@ -219,5 +272,5 @@ func C11(r *core.Run) {
 	r.Set("max_case_duration_ms", maxMs)
 	r.Set("worker_godebug", godebug)
 	r.JudgeRaces(core.ParseRaceLogs(filepath.Join(r.WorkDir, "race-")))
-	r.Finish(r.Pick(140, 3800))
+	r.Finish(r.Pick(165, 4400))
 }
